@@ -118,13 +118,13 @@ REGISTRY = {
     "C07": {"jobs": LEMMAS_BER + ASN1_FUNCS, "native": "native_c07.py",
             "assumptions": ["len(x) < 2^63 for every octet string (CPython sys.maxsize); INTEGER contents of at most 2^40 octets",
                             "inlined without a contract of their own: ASN1Tag.universal_tag, ASN1Reader.__init__/__bool__, ASN1Writer.__init__/__enter__/push_sequence/push_set (executed symbolically at every call site)"]},
-    "C01": {"jobs": VALUE_DECODERS + RT_LEMMAS, "native": "native_messages.py", "level": "other",
+    "C01": {"jobs": VALUE_DECODERS + RT_LEMMAS, "frames": {"rules": ["F1-no-module-state", "F2-no-class-attribute-writes", "F3-no-mutable-defaults"], "modules": ["_messages", "_filter", "_controls", "_authentication", "asn1"]}, "native": "native_messages.py", "level": "other",
             "explanation": _VD_NOTE + "The encode side is C03's encoding relation. Round trip theorems (specs/ldapmsg.py, proved like any function): with the encoder's postcondition and the decoder's postcondition as hypotheses over the same octets, every decoded field equals the encoded one - "
                            "for BindResponse, ExtendedResponse (hence SearchResultDone: LDAPResult alone), ExtendedRequest, BindRequest with either credential choice, the six fixed components of SearchRequest, the AttributeValueAssertion filter choices, `present`, extensibleMatch and substrings, Control, PartialAttribute, and every list of strings / octet strings (referrals, URIs of a SearchResultReference, attribute selection, attribute values: same length, same items); text fields modulo unutf8(utf8(t)) == t. "
                            "For the other message kinds, controls and filters the composition is the bounded evaluation: "
                            "Contract unpack(pack(m)) == m (reader exhausted, re-encoding identical; known controls may expose their raw value), evaluated over a stated bounded set of messages of all nine kinds. "
                            "The byte layer below (every TLV written is read back identically, all integers) is proved under C07; the per-message node-level contracts are not discharged deductively yet."},
-    "C03": {"jobs": ENCODE_TREE + [j("specs.ldapmsg:lemma_strs_snoc"), j("specs.ldapmsg:lemma_octs_snoc")], "native": "native_messages.py", "level": "other",
+    "C03": {"jobs": ENCODE_TREE + [j("specs.ldapmsg:lemma_strs_snoc"), j("specs.ldapmsg:lemma_octs_snoc")], "frames": {"rules": ["F1-no-module-state", "F2-no-class-attribute-writes", "F3-no-mutable-defaults"], "modules": ["_messages", "_filter", "_controls", "_authentication", "asn1"]}, "native": "native_messages.py", "level": "other",
             "assumptions": _ENC_ASSUME[1:] + ["closed world: credentials, filters and controls are instances of the library's own classes; the abstract base methods (AuthenticationCredential.pack, LDAPFilter.pack) "
                                               "carry the contract 'appends exactly one element', what the element is being stated and proved per concrete class",
                                               "three loops over lists of *objects* (filters of and / or, attributes of SearchResultEntry, controls of the envelope) are verified for totality and for the enclosing element only: "
@@ -135,7 +135,7 @@ REGISTRY = {
                            "(referrals, URIs, attribute selections, attribute values, substrings 'any') by loop invariants over strs_enc / octs_enc with induction lemmas. By lemma_tlv_roundtrip (C07) a strict decoder reads such octets back uniquely. "
                            "Not proved (hence level 'other'): the accumulation over lists of objects (and / or filters, PartialAttributeList, Controls) and the decoder side; the contract rfc4511.decode(m.pack(), strict) == abstract(m) "
                            "against the independent codec (specs/rfc4511.py) is evaluated over the bounded message set for those. One clause is a listed known finding (UnbindRequest written constructed)."},
-    "C04": {"jobs": VALUE_DECODERS, "native": "native_messages.py", "level": "other",
+    "C04": {"jobs": VALUE_DECODERS, "frames": {"rules": ["F1-no-module-state", "F2-no-class-attribute-writes", "F3-no-mutable-defaults"], "modules": ["_messages", "_filter", "_controls", "_authentication", "asn1"]}, "native": "native_messages.py", "level": "other",
             "explanation": _VD_NOTE + "Every definite length form and TRUE = any non-zero octet are proved for all inputs at the byte layer (C07: _read_asn1_header equals the X.690 denotation; _read_asn1_boolean). "
                            "At the message layer the contract unpack(encode_with_freedoms(abstract(m))) == m is evaluated over the bounded message set x 10 freedom combinations (extra length octets at every node, TRUE as 01/80/7F, explicit defaults, unknown trailing elements incl. ones whose tag number coincides with a known component in another class)."},
     "C02": {"jobs": RECEIVE + LEMMAS_FRAMING + FRAME_READERS + [j("asn1:ASN1Reader.read_octet_string")], "native": "native_receive.py",
@@ -152,13 +152,13 @@ REGISTRY = {
                             "well-formedness of the attached notification is proved as 'equals enc(UnbindRequest(0)) / enc(notice of disconnection, protocolError)'; that enc (LDAPMessage.pack, trusted at L3) "
                             "produces valid BER for these two messages is checked by the independent decoder in the bounded sweep"]},
     "C06": {"jobs": RECEIVE + FRAME_READERS + [LEMMAS_FRAMING[2], LEMMAS_FRAMING[0]], "native": "native_receive.py"},
-    "C13": {"jobs": [], "native": "native_filter_text.py", "level": "other",
+    "C13": {"jobs": [], "frames": {"rules": ["F1-no-module-state", "F2-no-class-attribute-writes", "F3-no-mutable-defaults"], "modules": ["_filter"]}, "native": "native_filter_text.py", "level": "other",
             "explanation": "Contract from_string(str(f)) == f on the real functions, evaluated: the per-octet escape map over all 256 octets is exhaustive (complete for the per-octet map); "
                            "tree round trips are bounded-exhaustive (stated bound). No deductive obligation: the parser is str.split / re.sub code outside the prover's reach (DESIGN.md 5, C13)."},
-    "C14": {"jobs": [], "native": "native_filter_text.py", "level": "other",
+    "C14": {"jobs": [], "frames": {"rules": ["F1-no-module-state", "F2-no-class-attribute-writes", "F3-no-mutable-defaults"], "modules": ["_filter"]}, "native": "native_filter_text.py", "level": "other",
             "explanation": "Contract from_string(s) == tree denoted by the RFC 4515 derivation of s, evaluated on bounded-exhaustive grammar derivations generated together with their trees; "
                            "attribute-description language inclusion RFC 4512 in L(_ATTRIBUTE_PATTERN) is exact (automata). The encoding half of the statement is C03's."},
-    "C15": {"jobs": FILTER_TEXT, "native": "native_filter_text.py", "level": "other",
+    "C15": {"jobs": FILTER_TEXT, "frames": {"rules": ["F1-no-module-state", "F2-no-class-attribute-writes", "F3-no-mutable-defaults"], "modules": ["_filter"]}, "native": "native_filter_text.py", "level": "other",
             "assumptions": ["re.Pattern.match is total and returns a match or None (both outcomes followed, the pattern's language not modelled in the deductive stage); str.split / bytes.split return at least one piece",
                             "_unpack_filter_value (re.sub with a raising callback) is a trusted contract: raises only FilterSyntaxError carrying the offset / length it was given",
                             "RecursionError (interpreter stack) is not modelled; from_string catches it and reports FilterSyntaxError"],
@@ -167,10 +167,10 @@ REGISTRY = {
                            "offset <= exc.offset, 0 <= exc.length, exc.offset + exc.length <= offset + length in octets of the UTF-8 view. The remaining clauses (accepted results are RFC 4512-valid and re-parse to themselves) are decided as before: Exact: L(_ATTRIBUTE_PATTERN) versus the RFC 4512 attribute description language over the full Unicode alphabet (automata difference). "
                            "Bounded-exhaustive: every string up to the stated length over a class-representative alphabet and every single-character edit of grammar sentences: "
                            "only FilterSyntaxError, span inside the input, accepted results RFC-valid and re-parsing to themselves."},
-    "C16": {"jobs": [], "native": "native_schema_text.py", "level": "other",
+    "C16": {"jobs": [], "frames": {"rules": ["F1-no-module-state", "F2-no-class-attribute-writes", "F3-no-mutable-defaults"], "modules": ["schema"]}, "native": "native_schema_text.py", "level": "other",
             "explanation": "Contract T.from_string(str(d)) == d on the real classes, evaluated over a stated bounded set of definitions (every field on/off, list lengths 0-3, description and "
                            "extension strings over the characters the encoder, the un-escaper and the grammar distinguish). No deductive obligation: regex + str.split code is outside the prover's reach."},
-    "C17": {"jobs": [], "native": "native_schema_text.py", "level": "other",
+    "C17": {"jobs": [], "frames": {"rules": ["F1-no-module-state", "F2-no-class-attribute-writes", "F3-no-mutable-defaults"], "modules": ["schema"]}, "native": "native_schema_text.py", "level": "other",
             "explanation": "Exact: L(RFC 4512 ABNF) is contained in the prefix language of each compiled description regex (automata inclusion over the full alphabet), for the three grammars incl. the quoted SYNTAX variant. "
                            "Bounded: field extraction against grammar sentences generated with their denoted values and spacing choices; totality (only ValueError) over short strings and single-character edits."},
     "C19": {"jobs": [], "static": "frames", "native": "native_c19.py", "level": "other",
